@@ -236,6 +236,7 @@ struct Norm<'a> {
     selfty: Option<String>,
     skip_sort: bool,
     subst: Option<(String, String)>,
+    strviews: bool,
     before: Vec<String>,
     pub before_hits: Vec<usize>,
 }
@@ -414,6 +415,75 @@ impl<'a> Norm<'a> {
 
 impl<'a> Norm<'a> {
     /// N9: anyhow / format / error-conversion idioms (DESIGN.md §2.2)
+    /// N9 rules that must see the whole expression before its parts are rewritten
+    fn n9_pre(&mut self, e: &mut Expr) {
+        if let Expr::MethodCall(mc) = e {
+            // X.strip_prefix(LIT).unwrap_or(&Y).to_string()  ==>  v_strip_prefix_or(&X, LIT, &Y)
+            if mc.method == "to_string" && mc.args.is_empty() {
+                if let Expr::MethodCall(uo) = &*mc.receiver {
+                    if uo.method == "unwrap_or" && uo.args.len() == 1 {
+                        if let Expr::MethodCall(sp) = &*uo.receiver {
+                            if sp.method == "strip_prefix" && sp.args.len() == 1 {
+                                let x = &sp.receiver;
+                                let lit = &sp.args[0];
+                                let y = &uo.args[0];
+                                *e = parse_quote!(v_strip_prefix_or(&#x, #lit, #y));
+                                self.stats.bump("N9.strip_prefix_or");
+                                return;
+                            }
+                        }
+                    }
+                }
+            }
+            // S[a..].to_string()  ==>  v_str_from(&S, a)
+            if mc.method == "to_string" && mc.args.is_empty() {
+                if let Expr::Index(ix) = &*mc.receiver {
+                    if let Expr::Range(rg) = &*ix.index {
+                        if let (Some(lo), None) = (&rg.start, &rg.end) {
+                            let base = &ix.expr;
+                            *e = parse_quote!(v_str_from(&#base, #lo));
+                            self.stats.bump("N9.str_suffix");
+                            return;
+                        }
+                    }
+                }
+            }
+        }
+    }
+
+    /// N9 (string views): `&S[a..]` on a `String` and `X.strip_prefix(LIT).unwrap_or(Y)` on `&str` values, only in
+    /// functions whose directive says `strviews` (the syntax alone does not tell a text slice from a byte slice)
+    fn n9_strviews(&mut self, e: &mut Expr) {
+        if !self.strviews { return; }
+        if let Expr::Reference(rf) = e {
+            if rf.mutability.is_none() {
+                if let Expr::Index(ix) = &*rf.expr {
+                    if let Expr::Range(rg) = &*ix.index {
+                        if let (Some(lo), None) = (&rg.start, &rg.end) {
+                            let base = &ix.expr;
+                            *e = parse_quote!(v_str_tail(&#base, #lo));
+                            self.stats.bump("N9.str_tail_view");
+                            return;
+                        }
+                    }
+                }
+            }
+        }
+        if let Expr::MethodCall(uo) = e {
+            if uo.method == "unwrap_or" && uo.args.len() == 1 {
+                if let Expr::MethodCall(sp) = &*uo.receiver {
+                    if sp.method == "strip_prefix" && sp.args.len() == 1 {
+                        let x = &sp.receiver;
+                        let lit = &sp.args[0];
+                        let y = &uo.args[0];
+                        *e = parse_quote!(v_strip_prefix_or_view(#x, #lit, #y));
+                        self.stats.bump("N9.strip_prefix_or_view");
+                    }
+                }
+            }
+        }
+    }
+
     fn n9(&mut self, e: &mut Expr) {
         // bail!(..) / anyhow!(..) / format!(..) in expression position
         if let Expr::Macro(em) = e {
@@ -518,36 +588,6 @@ impl<'a> Norm<'a> {
                                     }
                                 }
                             }
-                        }
-                    }
-                }
-            }
-            // X.strip_prefix(LIT).unwrap_or(&Y).to_string()  ==>  v_strip_prefix_or(&X, LIT, &Y)
-            if mc.method == "to_string" && mc.args.is_empty() {
-                if let Expr::MethodCall(uo) = &*mc.receiver {
-                    if uo.method == "unwrap_or" && uo.args.len() == 1 {
-                        if let Expr::MethodCall(sp) = &*uo.receiver {
-                            if sp.method == "strip_prefix" && sp.args.len() == 1 {
-                                let x = &sp.receiver;
-                                let lit = &sp.args[0];
-                                let y = &uo.args[0];
-                                *e = parse_quote!(v_strip_prefix_or(&#x, #lit, #y));
-                                self.stats.bump("N9.strip_prefix_or");
-                                return;
-                            }
-                        }
-                    }
-                }
-            }
-            // S[a..].to_string()  ==>  v_str_from(&S, a)
-            if mc.method == "to_string" && mc.args.is_empty() {
-                if let Expr::Index(ix) = &*mc.receiver {
-                    if let Expr::Range(rg) = &*ix.index {
-                        if let (Some(lo), None) = (&rg.start, &rg.end) {
-                            let base = &ix.expr;
-                            *e = parse_quote!(v_str_from(&#base, #lo));
-                            self.stats.bump("N9.str_suffix");
-                            return;
                         }
                     }
                 }
@@ -746,6 +786,7 @@ impl<'a> VisitMut for Norm<'a> {
             Expr::Loop(l) => self.mark_loop(&mut l.body),
             _ => {}
         }
+        self.n9_pre(e);
         visit_mut::visit_expr_mut(self, e);
         // N7 await
         if !self.keep_async {
@@ -796,6 +837,7 @@ impl<'a> VisitMut for Norm<'a> {
         }
         self.n6(e);
         self.n9(e);
+        self.n9_strviews(e);
     }
 
     fn visit_path_mut(&mut self, p: &mut syn::Path) {
@@ -872,7 +914,7 @@ impl<'a> VisitMut for Norm<'a> {
 /// Returns the number of loops found (pre-order numbering).
 pub fn normalise(block: &mut syn::Block, opts: &BTreeMap<String, String>, stats: &mut Stats, desc: &str, before: &[String]) -> (usize, Vec<usize>) {
     let deref_idents = opts.get("n3").map(|s| s.split(',').map(|x| x.to_string()).collect()).unwrap_or_default();
-    let mut n = Norm { stats, desc, loops: 0, tmp: 0, closure_args: 0, deref_idents, keep_async: false, yieldctx: opts.get("yieldctx").cloned(), opt_map: opts.contains_key("optmap"), dropnote: opts.get("dropnote").cloned(), selfty: opts.get("selfty").cloned(), skip_sort: false, before: before.to_vec(), before_hits: vec![0; before.len()], subst: opts.get("subst").and_then(|v| v.split_once(':').map(|(a, b)| (a.to_string(), b.replace('~', "::")))) };
+    let mut n = Norm { stats, desc, loops: 0, tmp: 0, closure_args: 0, deref_idents, keep_async: false, yieldctx: opts.get("yieldctx").cloned(), opt_map: opts.contains_key("optmap"), dropnote: opts.get("dropnote").cloned(), selfty: opts.get("selfty").cloned(), skip_sort: false, strviews: opts.contains_key("strviews"), before: before.to_vec(), before_hits: vec![0; before.len()], subst: opts.get("subst").and_then(|v| v.split_once(':').map(|(a, b)| (a.to_string(), b.replace('~', "::")))) };
     n.visit_block_mut(block);
     (n.loops, n.before_hits.clone())
 }
